@@ -1,6 +1,7 @@
 /-
 Props/C07.lean — (a) write-then-list returns the stored files; (b) on every consistent Disk BASIC image
-outside the exclusion `K_C07_zeroSectorAscii`, listing returns what the reference reader finds.
+listing returns what the reference reader finds. The former exclusion `K_C07_zeroSectorAscii` (an ASCII file
+whose last-granule marker says 0 sectors) is gone: `calculate_file_length` was repaired.
 -/
 import CoCoVerif.Props.DiskDefs
 import CoCoVerif.Lemmas.DiskReaderB
@@ -9,14 +10,22 @@ import CoCoVerif.Lemmas.DiskWitness
 namespace CoCo.Props
 open CoCo CoCo.Dsk
 
-/-- part (b) of C07 with the one exclusion -/
+/-- part (b) of C07, no exclusion -/
+theorem C07_reader_full :
+    ∀ (img : Bytes) (ds : List Spec.DiskBasic.DFile),
+      Spec.DiskBasic.Fsck img → Spec.DiskBasic.read img = some ds →
+      (∀ d ∈ ds, (∀ c ∈ d.name, c < 128) ∧ (∀ c ∈ d.ext, c < 128)) →
+        Dsk.list img = .ok (ds.map ofDFile) :=
+  fun _ _ hf hr ha => list_eq_read hf hr ha
+
+/-- part (b) of C07 with the former exclusion (corollary of `C07_reader_full`) -/
 theorem C07_reader_partial :
     ∀ (img : Bytes) (ds : List Spec.DiskBasic.DFile),
       Spec.DiskBasic.Fsck img → Spec.DiskBasic.read img = some ds →
       (∀ d ∈ ds, (∀ c ∈ d.name, c < 128) ∧ (∀ c ∈ d.ext, c < 128)) →
       K_C07_zeroSectorAscii img = false →
         Dsk.list img = .ok (ds.map ofDFile) :=
-  fun _ _ hf hr ha hK => list_eq_read hf hr ha hK
+  fun img ds hf hr ha _ => C07_reader_full img ds hf hr ha
 
 /-- part (a) of C07 -/
 theorem C07_write_list :
@@ -26,12 +35,11 @@ theorem C07_write_list :
   intro order fs img ho hv hres
   obtain ⟨abs, hinv, hfs⟩ := Inv.write ho hv hres
   have hr := hinv.read_eq
-  have := C07_reader_partial img _ hinv.fsck hr
+  have := C07_reader_full img _ hinv.fsck hr
     (by
       intro d hd
       obtain ⟨e, he, rfl⟩ := List.mem_map.mp hd
       exact toDFile_ascii (hinv.valid e he))
-    hinv.K_false
   rw [this, ← hfs, List.map_map, List.map_map]
   rfl
 
@@ -46,23 +54,22 @@ theorem C07_partial :
          Dsk.list img = .ok (ds.map ofDFile)) :=
   ⟨C07_write_list, C07_reader_partial⟩
 
-/-- part (b) of C07 is false without the exclusion: the image `Witness.img` (blank, one ASCII entry in slot 0
-whose chain is granule 0 with table entry $C0 = "0 sectors used") passes the consistency check, the reference
-reader finds an empty file, the tool returns 2048 bytes of $FF. -/
-theorem C07_finding_zeroSector :
-    ¬ (∀ (img : Bytes) (ds : List Spec.DiskBasic.DFile),
-       Spec.DiskBasic.Fsck img → Spec.DiskBasic.read img = some ds →
-       (∀ d ∈ ds, (∀ c ∈ d.name, c < 128) ∧ (∀ c ∈ d.ext, c < 128)) →
-         Dsk.list img = .ok (ds.map ofDFile)) := by
-  intro H
-  apply Witness.list_ne Witness.wimg
-  apply H Witness.img [Witness.d0] (Witness.fsck Witness.wimg) (Witness.read_eq Witness.wimg)
-  intro d hd
-  simp at hd
-  subst hd
-  exact ⟨by decide, by decide⟩
+/-- **C07** as stated, without any exclusion -/
+theorem C07_full : C07_Statement := ⟨C07_write_list, C07_reader_full⟩
 
-/-- hence C07 as stated (without the exclusion) does not hold for the tool -/
-theorem C07_Statement_false : ¬ C07_Statement := fun h => C07_finding_zeroSector h.2
+/-- the former counterexample to part (b): the image `Witness.img` (blank, one ASCII entry in slot 0 whose chain
+is granule 0 with table entry $C0 = "0 sectors used") passes the consistency check and lies inside the former
+exclusion; the reference reader finds one ASCII file with empty data, and the tool (which used to return 2048
+bytes of $FF) now lists exactly that. -/
+theorem C07_finding_zeroSector_fixed :
+    Spec.DiskBasic.Fsck Witness.img ∧
+    K_C07_zeroSectorAscii Witness.img = true ∧
+    Spec.DiskBasic.read Witness.img = some [Witness.d0] ∧
+    Witness.d0.data = [] ∧
+    Dsk.list Witness.img = .ok ([Witness.d0].map ofDFile) ∧
+    Dsk.list Witness.img = .ok [{ name := [65], ext := [84, 88, 84], ftype := 1, dtype := 0xFF, gaps := 0,
+                                  load := 0, exec := 0, data := [] }] :=
+  ⟨Witness.fsck Witness.wimg, Witness.K_true Witness.wimg, Witness.read_eq Witness.wimg, rfl,
+   Witness.list_eq Witness.wimg, Witness.list_eq Witness.wimg⟩
 
 end CoCo.Props
